@@ -262,6 +262,8 @@ func c07Fixed(c *ev.Ctx) {
 			[]step{{nil, "ARRAY:[70001, 70000]"}, {nil, "ARRAY:[70001, 70000]"}}},
 		{"float-literal-not-mutated", `x = 1.5; x++; return x;`, []step{{nil, "FLOAT:2.5"}, {nil, "FLOAT:2.5"}, {nil, "FLOAT:2.5"}}},
 		{"string-iteration-restarts", `n = 0; foreach ch in "abc" { n = n + 1; if (n == 2) { return n; } } return n;`, []step{{nil, "INTEGER:2"}, {nil, "INTEGER:2"}}},
+		{"operands-left-by-an-abandoned-call-are-not-inherited", `function leave(a) { foreach e in [7, 8, 9] { if (e == 8) { return e; } } return 0; } function faulty(z) { x = [1, 2, 1 / z]; return x; } function boom() { y = [4, 5, panic("p")]; return y; } function probe(m) { return t(m); } if (Mode == 1) { return leave(1); } if (Mode == 2) { return faulty(0); } if (Mode == 3) { return boom(); } return probe(1);`,
+			[]step{{map[string]model.Value{"Mode": model.Int(0)}, "error"}, {map[string]model.Value{"Mode": model.Int(1)}, "INTEGER:8"}, {map[string]model.Value{"Mode": model.Int(0)}, "error"}, {map[string]model.Value{"Mode": model.Int(2)}, "error"}, {map[string]model.Value{"Mode": model.Int(0)}, "error"}, {map[string]model.Value{"Mode": model.Int(3)}, "error"}, {map[string]model.Value{"Mode": model.Int(0)}, "error"}, {map[string]model.Value{"Mode": model.Int(1)}, "INTEGER:8"}}},
 		{"field-cache-is-per-run", `return Name;`, []step{{map[string]model.Value{"Name": model.Str("a")}, "STRING:a"}, {map[string]model.Value{"Name": model.Str("b")}, "STRING:b"}, {map[string]model.Value{}, "NULL:null"}}},
 	}
 	for _, tc := range cases {
